@@ -229,7 +229,7 @@ func checkC14(r *mon.Run) {
 	r.Assumptions = []string{
 		"interleavings are sampled (GOMAXPROCS 2-8, PRNG yields/spins at every pool hand-over), not enumerated",
 		"'used by two stages at once' without a ledger anomaly is visible only through the race detector (both stages must touch the packet) or the payload-serial check",
-		"packets still queued when Shutdown is called under load are stranded by design (processors stop); they are counted, not judged",
+		"packets still queued when Shutdown is called under load are stranded by design (processors stop); they are counted, not judged; the same holds for a BFD packet that a session queues on a connection whose sender Shutdown has already stopped",
 		"BFD sessions cannot be paused: a failure of the Shutdown of an otherwise idle data plane whose stack shows a BFD session transmitting is filed under the shutdown-under-load keys (C14:shutdown:...)",
 	}
 	rng := r.Rand("c14")
@@ -472,6 +472,9 @@ func c14Judge(r *mon.Run, res *childResult, seqTotals map[string]uint64, evalTot
 				if n > a.Ledger.Seqs[s] {
 					seqTotals[s] += n - a.Ledger.Seqs[s]
 				}
+			}
+			if b.StrandedBFD > 0 {
+				r.EventN("stranded_bfd_packet_after_quiescent_shutdown", int64(b.StrandedBFD))
 			}
 			if len(b.Violations) == len(a.Violations) && res.exit == 0 {
 				*shutdownOK++
